@@ -4,6 +4,7 @@ CONSTANTS
   MaxDepth = 3
   StmtDepth = 2
   Effects = TRUE
+  Focus = "all"
   Quirks = FALSE
   EnvCap = 8
   RetTypes <- MC_RetAll
